@@ -337,7 +337,10 @@ def c10(tier, seed):
 @plan("C20")
 def c20(tier, seed):
     return dict(
-        jobs=diff_jobs("C20", tier, seed, dict(flags=0.1, nest=0.45, nest_flag=0.0, share_fns=0.6, max_stmts=7, seq=0.3), 3, scale=0.7),
+        jobs=diff_jobs("C20", tier, seed, dict(flags=0.1, nest=0.45, nest_flag=0.0, share_fns=0.6, max_stmts=7, seq=0.3), 3, scale=0.7)
+        # nested calls and plain calls of the SAME functions carrying (mostly constant) activation flags: the helper nodes that hold
+        # such constants are prefixed like everything else
+        + diff_jobs("C20", tier, seed + 3, dict(flags=0.45, nest=0.45, nest_flag=0.5, share_fns=0.8, const_flag=0.6, max_stmts=6), 2, scale=0.4, nj_scale=0.5),
         level="exploration",
         rule=RULE_DIFF + "; nesting to depth 3, inner signatures with required and defaulted parameters, call forms supplying fewer / all "
         "parameters as constants or results, all return shapes, outer unpack / static index / pass-on, the SAME decorated functions used "
@@ -511,7 +514,7 @@ def c16(tier, seed):
         "distinct = distinct (workload, programs, thread count / pause point)",
         assumptions=["setup nodes are excluded from the concurrent-call workload (the property says 'after its setup nodes have run')",
                      "thread pre-emption inside tawazi is explored statistically (tiny switch interval), the build/call overlap deterministically"],
-        required_reach=["c16_concurrent_calls", "c16_build_overlaps", "c16_concurrent_builds", "c16_per_execution_monitor_runs", "c16_lockset_touches_checked"],
+        required_reach=["c16_concurrent_calls", "c16_build_overlaps", "c16_concurrent_builds", "c16_per_execution_monitor_runs", "c16_lockset_touches_checked", "c16_concurrent_cache_writes"],
         parallel=8 if tier == "quick" else 16, timeout=1200,
     )
 
